@@ -7,13 +7,13 @@ git checkout -q -- . ; git clean -fdq tests/output 2>/dev/null
 sysconf=$(grep -o 'sysconfdir=[^ ]*' config.log 2>/dev/null | head -1)
 [ -f Makefile ] || { ./configure --quiet ${sysconf:+--$sysconf} >/dev/null 2>&1 || exit 2; }
 make -j8 >/dev/null 2>&1 || { echo "clean build failed"; exit 2; }
-sh $sd/demo.sh $wt >/tmp/confirm.$id.$v.clean.log 2>&1; rc_clean=$?
+bash $sd/demo.sh $wt >/tmp/confirm.$id.$v.clean.log 2>&1; rc_clean=$?
 git apply $sd/patch.diff || { echo "patch does not apply"; exit 2; }
 make -j8 >/tmp/confirm.$id.$v.build.log 2>&1 || { echo "patched build FAILED"; git checkout -q -- .; exit 3; }
 make -k -j8 check >/tmp/confirm.$id.$v.check.log 2>&1
 pass=$(grep -E '^PASS:' /tmp/confirm.$id.$v.check.log | sort -u | wc -l)
 fails=$(grep -E '^(FAIL|ERROR):' /tmp/confirm.$id.$v.check.log | sort -u | tr '\n' ' ')
-sh $sd/demo.sh $wt >/tmp/confirm.$id.$v.patched.log 2>&1; rc_patched=$?
+bash $sd/demo.sh $wt >/tmp/confirm.$id.$v.patched.log 2>&1; rc_patched=$?
 git checkout -q -- . ; git clean -fdq tests/output 2>/dev/null
 make -j8 >/dev/null 2>&1
 echo "CONFIRM $id/$v demo_clean=$rc_clean demo_patched=$rc_patched suite_pass=$pass fails=[$fails]"
